@@ -221,9 +221,172 @@ def extract_time_range_unit(U):
                 if all(any(d is f for f in frames) for d in data) else z3.BoolVal(False))
 
 
+# ------------------------------------------------------------------ derived views
+def _field_factory(it, grid, made=None):
+    """fields as the storage code uses them: real FieldBase.data property/setter on an own buffer; copy()
+    yields a field with a fresh buffer of equal content"""
+    fcls = it.module_attr(it.load_module("pde.fields.base"), "FieldBase")
+
+    def make(content=None, name="copy_buffer"):
+        buf = sym_array(fresh_name(name), (N,))
+        if content is not None:
+            buf.assign(slice(None), content)
+        f = Instance(fcls, {"_data_valid": buf, "grid": grid, "dtype": Opaque("float"), "attributes_serialized": {"class": "ScalarField"}})
+        f.attrs["copy"] = lambda dtype=None, label=None, f=f: make(f.attrs["_data_valid"])
+        if made is not None:
+            made.append(f)
+        return f
+
+    return make
+
+
+def _install_stubs(it):
+    it.stub_names["display_progress"] = lambda iterator, total=None, enabled=True, **kw: iterator
+
+    def signature(fn):
+        from ..objects import BoundMethod, Function
+        if isinstance(fn, BoundMethod):
+            a = fn.func.node.args
+            return Instance(None, {"parameters": [x.arg for x in a.posonlyargs + a.args][1:]}, name="signature")
+        if isinstance(fn, Function):
+            a = fn.node.args
+            return Instance(None, {"parameters": [x.arg for x in a.posonlyargs + a.args]}, name="signature")
+        import inspect
+        return Instance(None, {"parameters": list(inspect.signature(fn).parameters)}, name="signature")
+
+    it.stub_names["signature"] = signature
+
+
+def items_unit(U):
+    def body(it):
+        it.ctx.assume(N >= 1)
+        st, frames, times, grid = _storage(it, 3)
+        st.attrs["_field"] = _field_factory(it, grid)()
+        items = it.call(it.getattr(st, "items"), [], {})
+        fields = it.iterate(st)
+        return list(items), list(fields), times
+
+    for p, res in enumerate(explore_paths(U, body)):
+        P = prem_of(res.ctx)
+        nm = f"items.path{p}"
+        if res.outcome != "return":
+            U.prove(f"{nm}.returns_normally", P, z3.BoolVal(False), info={"exc": str(res.exc)})
+            continue
+        items, fields, times = res.value
+        j = z3.Int("j")
+        Pj = P + [j >= 0, j < N]
+        ok = len(items) == 3 and all(isinstance(x, tuple) and len(x) == 2 for x in items)
+        U.prove(f"{nm}.one_pair_per_frame", P, z3.BoolVal(ok and len(fields) == 3))
+        if ok:
+            for i in range(3):
+                U.prove(f"{nm}.pair{i}==(time_{i}, frame_{i})", Pj, z3.And(to_z3(items[i][0]) == times[i], to_z3(items[i][1].attrs["_data_valid"].read((j,))) == sym_frame(i)(j)))
+                U.prove(f"{nm}.iter{i}==frame_{i}", Pj, to_z3(fields[i].attrs["_data_valid"].read((j,))) == sym_frame(i)(j))
+    U.assume_note("generators (items, __iter__) are evaluated eagerly: the consumer does not modify the storage between two yields")
+
+
+def copy_apply_unit(which):
+    def unit(U):
+        def body(it):
+            it.ctx.assume(N >= 1)
+            _install_stubs(it)
+            st, frames, times, grid = _storage(it, 2)
+            make = _field_factory(it, grid)
+            st.attrs["_field"] = make()
+            shift = z3.Real("shift")
+            if which == "copy":
+                out = it.call(it.getattr(st, "copy"), [], {})
+            else:
+                def func(field, t):
+                    from ..arrays import elementwise
+                    return make(elementwise(lambda v: to_z3(v) * to_z3(t) + shift, field.attrs["_data_valid"]), name="transformed")
+                out = it.call(it.getattr(st, "apply"), [func], {})
+            # later change of the source storage's frames
+            frames[0].assign(slice(None), z3.Real("later_value"))
+            return out, frames, times, shift
+
+        for p, res in enumerate(explore_paths(U, body)):
+            P = prem_of(res.ctx)
+            nm = f"{which}.path{p}"
+            if res.outcome != "return":
+                U.prove(f"{nm}.returns_normally", P, z3.BoolVal(False), info={"exc": str(res.exc)})
+                continue
+            out, frames, times, shift = res.value
+            data, tms = out.attrs.get("data"), out.attrs.get("times")
+            j = z3.Int("j")
+            Pj = P + [j >= 0, j < N]
+            ok = isinstance(data, list) and isinstance(tms, list) and len(data) == 2 and len(tms) == 2 and all(isinstance(d, NDArr) for d in data)
+            U.prove(f"{nm}.result_has_one_frame_per_source_frame", P, z3.BoolVal(ok))
+            if not ok:
+                continue
+            U.prove(f"{nm}.times_carried_over_in_order", P, z3.And(*[to_z3(tms[i]) == times[i] for i in range(2)]))
+            U.prove(f"{nm}.frames_are_fresh_buffers", P, z3.BoolVal(all(d.buf is not f.buf for d in data for f in frames) and data[0].buf is not data[1].buf))
+            for i in range(2):
+                want = sym_frame(i)(j) if which == "copy" else sym_frame(i)(j) * times[i] + shift
+                U.prove(f"{nm}.frame{i}=={'source frame' if which == 'copy' else 'func(source frame, time)'}_even_after_later_writes_to_the_source", Pj, to_z3(data[i].read((j,))) == want)
+        U.assume_note("generators (items, __iter__) are evaluated eagerly: the consumer does not modify the storage between two yields")
+
+    return unit
+
+
+def extract_field_unit(U):
+    """collection storage with members scalar (1 component) and vector (2 components): frames of shape (3, N)"""
+    def body(it):
+        it.ctx.assume(N >= 1)
+        cls = it.module_attr(it.load_module(MEM), "MemoryStorage")
+        frames = [sym_array(f"cframe{i}", (3, N)) for i in range(2)]
+        times = [z3.Real(f"t{i}") for i in range(2)]
+        grid = Instance(None, {"num_axes": 1, "__eq__": None}, name="grid")
+        member_shapes = [(N,), (2, N)]
+
+        def member(k):
+            def copy(dtype=None, label=None):
+                return Instance(None, {"data": sym_array(fresh_name("member_copy"), member_shapes[k]), "grid": grid, "label": f"m{k}", "member": k,
+                                       "copy": copy}, name=f"member{k}")
+            return Instance(None, {"copy": copy, "label": f"m{k}"}, name=f"member{k}")
+
+        coll = Instance(None, {"labels": ["m0", "m1"], "_slices": [slice(0, 1), slice(1, 3)], "__getitem__": lambda k: member(k),
+                               "__isinstance__": ("FieldCollection", "FieldBase")}, name="collection_template")
+        st = Instance(cls, {"times": list(times), "data": list(frames), "_data_shape": (3, N), "_dtype": Opaque("float"), "_grid": grid,
+                            "_field": coll, "info": {}, "write_mode": "append", "_logger": Opaque("logger")})
+        which = z3.Int("field_index")
+        k = 0 if it.ctx.branch(which == 0) else 1
+        key = ("m0", "m1")[k] if it.ctx.branch(z3.Bool("by_label")) else k
+        out = it.call(it.getattr(st, "extract_field"), [key], {})
+        st.attrs["times"].append(z3.Real("t_later"))
+        frames[0].assign((slice(None), slice(None)), z3.Real("later_value"))
+        return out, k, times
+
+    for p, res in enumerate(explore_paths(U, body)):
+        P = prem_of(res.ctx)
+        nm = f"extract_field.path{p}"
+        if res.outcome != "return":
+            U.prove(f"{nm}.returns_normally", P, z3.BoolVal(False), info={"exc": str(res.exc)})
+            continue
+        out, k, times = res.value
+        data, tms = out.attrs.get("data"), out.attrs.get("times")
+        ok = isinstance(data, list) and isinstance(tms, list) and len(data) == 2 and len(tms) == 2 and all(isinstance(d, NDArr) for d in data)
+        U.prove(f"{nm}.one_frame_per_source_frame_and_times_unaffected_by_later_appends_to_the_source", P, z3.BoolVal(ok))
+        if not ok:
+            continue
+        U.prove(f"{nm}.times_carried_over_in_order", P, z3.And(*[to_z3(tms[i]) == times[i] for i in range(2)]))
+        j, c = z3.Int("j"), z3.Int("c")
+        off, ncomp = (0, 1) if k == 0 else (1, 2)
+        for i in range(2):
+            src = z3.Function(f"cframe{i}", z3.IntSort(), z3.IntSort(), z3.RealSort())
+            d = data[i]
+            if k == 0:
+                U.prove(f"{nm}.frame{i}==rows_of_member_{k}_of_the_stored_frame", P + [j >= 0, j < N],
+                        z3.And(z3.BoolVal(d.ndim == 1), to_z3(d.read((j,))) == src(0, j)) if d.ndim == 1 else z3.BoolVal(False))
+            else:
+                U.prove(f"{nm}.frame{i}==rows_of_member_{k}_of_the_stored_frame", P + [j >= 0, j < N, c >= 0, c < 2],
+                        z3.And(z3.BoolVal(d.ndim == 2), to_z3(d.read((c, j))) == src(c + 1, j)) if d.ndim == 2 else z3.BoolVal(False))
+        U.prove(f"{nm}.template_is_a_copy_of_member_{k}", P, z3.BoolVal(isinstance(out.attrs.get("_field"), Instance) and out.attrs["_field"].attrs.get("member") == k))
+
+
 UNITS = [
     ("append", append_unit), ("start_writing", start_writing_unit), ("_get_field.isolation", get_field_unit),
     ("__getitem__.content", get_field_content_unit), ("clear", clear_unit), ("extract_time_range", extract_time_range_unit),
+    ("items_and_iteration", items_unit), ("copy", copy_apply_unit("copy")), ("apply", copy_apply_unit("apply")), ("extract_field", extract_field_unit),
 ]
 
 
@@ -240,4 +403,4 @@ def bounded(tier, seed):
 
 TRUSTED = ["heap model: np.array(x) is a fresh buffer, `field._data_valid[...] = x` copies values into the field's own buffer", "Python list operations are length generic"]
 ASSUMPTIONS = ["stores of up to two pre-existing frames in the symbolic runs; frame contents, sizes and time stamps arbitrary", "extract_time_range may share buffers with the source (documented)"]
-NOT_COVERED = ["items() (generator), extract_field / view_field / apply / copy: bounded native check only", "dtype casting on append and on reading back (values are mathematical reals in the model; the data type of a frame read back is promoted by _get_field): bounded native check with mixed-dtype sessions only"]
+NOT_COVERED = ["StorageView (view_field: storage[key][field_index], a one-line delegation to FieldCollection indexing, C15), from_fields / from_collection constructors, FileStorage / MovieStorage: bounded native check only or out of scope", "dtype casting on append and on reading back (values are mathematical reals in the model; the data type of a frame read back is promoted by _get_field): bounded native check with mixed-dtype sessions only"]
